@@ -1,1 +1,155 @@
-import Liquid.ExprParse
+import Liquid.Eval
+/-!
+# C08 — expressions: literals, variable/property/index lookup and filter pipelines
+-/
+
+open GoVal
+
+/-! ## Literals and names -/
+
+/-- a literal denotes itself -/
+theorem eval_lit (P : Prims) (env : Env) (v : GoVal) : eval P env (.lit v) = .ok v := by
+  rw [eval]
+
+/-- a name denotes its binding (a drop presents as its `ToLiquid` value); an undefined name is nil -/
+theorem eval_var (P : Prims) (env : Env) (x : Bytes) : eval P env (.var x) = .ok (env.get x).toLiquid := by
+  rw [eval]
+
+theorem eval_var_undefined (P : Prims) (env : Env) (x : Bytes) (h : env.find? (fun kv => kv.1 == x) = none) :
+    eval P env (.var x) = .ok .nil := by
+  rw [eval_var]; simp [Env.get, h, GoVal.toLiquid]
+
+/-! ## Array indexing -/
+
+/-- `a[i]` for `0 ≤ i < len` reads element `i` -/
+theorem index_array (t : Ty) (xs : List GoVal) (i : Nat) (h : i < xs.length) :
+    indexValue (.slice t xs) (.int .int i) = .val xs[i] := by
+  have h1 : ¬ ((i : Int) < 0) := by omega
+  have h2 : (0 : Int) ≤ i ∧ (i : Int) < xs.length := by omega
+  simp [indexValue, indexValue.indexList, unwrap, h1, h2, List.getD, h]
+
+/-- negative indices count from the end: `a[-k]` is `a[len-k]` -/
+theorem index_neg (t : Ty) (xs : List GoVal) (k : Nat) (hk : 0 < k) (h : k ≤ xs.length) :
+    indexValue (.slice t xs) (.int .int (-(k : Int))) = .val (xs.getD (xs.length - k) .nil) := by
+  have h1 : (-(k : Int) < 0) := by omega
+  have h2 : (0 : Int) ≤ -(k : Int) + xs.length ∧ -(k : Int) + xs.length < xs.length := by omega
+  have h3 : (-(k : Int) + xs.length).toNat = xs.length - k := by omega
+  simp [indexValue, indexValue.indexList, unwrap, hk, h2, h3]
+
+/-- an out-of-range index yields nil -/
+theorem index_oob (t : Ty) (xs : List GoVal) (n : Int) (h : n < -(xs.length : Int) ∨ (xs.length : Int) ≤ n) :
+    indexValue (.slice t xs) (.int .int n) = .val .nil := by
+  simp only [indexValue, indexValue.indexList, unwrap]
+  by_cases hn : n < 0
+  · have : ¬ (0 ≤ n + (xs.length : Int) ∧ n + (xs.length : Int) < xs.length) := by omega
+    simp [hn, this]
+  · have : ¬ (0 ≤ n ∧ n < (xs.length : Int)) := by omega
+    simp [hn, this]
+
+/-- a non-numeric index (string, bool, nil, array…) yields nil -/
+theorem index_nonint_str (t : Ty) (xs : List GoVal) (s : Bytes) : indexValue (.slice t xs) (.str s) = .val .nil := by
+  simp [indexValue, indexValue.indexList, unwrap]
+theorem index_nonint_nil (t : Ty) (xs : List GoVal) : indexValue (.slice t xs) .nil = .val .nil := by
+  simp [indexValue, indexValue.indexList, unwrap]
+theorem index_nonint_bool (t : Ty) (xs : List GoVal) (b : Bool) : indexValue (.slice t xs) (.bool b) = .val .nil := by
+  simp [indexValue, indexValue.indexList, unwrap]
+
+/-- arrays offer `first`, `last` and `size` -/
+theorem array_first (t : Ty) (xs : List GoVal) : propertyValue (.slice t xs) firstKey = .val (xs.head?.getD .nil) := by
+  simp [propertyValue, propertyValue.propList, unwrap]
+theorem array_last (t : Ty) (xs : List GoVal) : propertyValue (.slice t xs) lastKey = .val (xs.getLast?.getD .nil) := by
+  simp [propertyValue, propertyValue.propList, unwrap, firstKey, lastKey]
+theorem array_size (t : Ty) (xs : List GoVal) : propertyValue (.slice t xs) sizeKey = .val (.int .int xs.length) := by
+  simp [propertyValue, propertyValue.propList, unwrap, firstKey, lastKey, sizeKey]
+
+/-! ## Maps -/
+
+/-- `m.k` and `m["k"]` read the same entry of a string-keyed map -/
+theorem map_prop_eq_index (vt : Ty) (kvs : List (GoVal × GoVal)) (k : Bytes) (v : GoVal)
+    (h : mapFind kvs (.str k) = some v) :
+    propertyValue (.map .str vt kvs) k = .val v ∧ indexValue (.map .str vt kvs) (.str k) = .val v := by
+  simp [propertyValue, indexValue, unwrap, convertKey, h]
+
+/-- a missing key yields nil (through either spelling), except `size`… -/
+theorem map_missing_key (vt : Ty) (kvs : List (GoVal × GoVal)) (k : Bytes)
+    (h : mapFind kvs (.str k) = none) (hk : k ≠ sizeKey) :
+    propertyValue (.map .str vt kvs) k = .val .nil ∧ indexValue (.map .str vt kvs) (.str k) = .val .nil := by
+  simp [propertyValue, indexValue, unwrap, convertKey, h, hk]
+
+/-- …`m.size` gives the entry count when the map has no such key… -/
+theorem map_size_fallback (vt : Ty) (kvs : List (GoVal × GoVal)) (h : mapFind kvs (.str sizeKey) = none) :
+    propertyValue (.map .str vt kvs) sizeKey = .val (.int .int kvs.length) := by
+  simp [propertyValue, unwrap, h]
+
+/-- …and the entry when it has -/
+theorem map_size_shadowed (vt : Ty) (kvs : List (GoVal × GoVal)) (v : GoVal) (h : mapFind kvs (.str sizeKey) = some v) :
+    propertyValue (.map .str vt kvs) sizeKey = .val v := by
+  simp [propertyValue, unwrap, h]
+
+/-! ## Steps that do not apply yield nil -/
+
+theorem nil_prop (k : Bytes) : propertyValue .nil k = .val .nil := by simp [propertyValue, unwrap]
+theorem nil_index (i : GoVal) : indexValue .nil i = .val .nil := by simp [indexValue, unwrap]
+theorem int_prop (kd : IntKind) (n : Int) (k : Bytes) : propertyValue (.int kd n) k = .val .nil := by
+  simp [propertyValue, unwrap]
+theorem bool_prop (b : Bool) (k : Bytes) : propertyValue (.bool b) k = .val .nil := by simp [propertyValue, unwrap]
+theorem flt_prop (kd : FltKind) (q : Rat) (k : Bytes) : propertyValue (.flt kd q) k = .val .nil := by
+  simp [propertyValue, unwrap]
+theorem int_index (kd : IntKind) (n : Int) (i : GoVal) : indexValue (.int kd n) i = .val .nil := by
+  simp [indexValue, unwrap]
+theorem str_prop (s k : Bytes) (hk : k ≠ sizeKey) : propertyValue (.str s) k = .val .nil := by
+  simp [propertyValue, unwrap, hk]
+theorem str_index (s : Bytes) (i : GoVal) : indexValue (.str s) i = .val .nil := by simp [indexValue, unwrap]
+
+/-- a drop is looked through by every lookup -/
+theorem drop_prop (v : GoVal) (k : Bytes) : propertyValue (.drop v) k = propertyValue v k := by
+  simp [propertyValue, unwrap]
+theorem drop_index (v i : GoVal) : indexValue (.drop v) i = indexValue v i := by
+  simp [indexValue, unwrap]
+
+/-! ## Pipelines -/
+
+/-- one pipeline step: the filter is looked up first, then the receiver is evaluated, then the
+    arguments left to right in the current bindings, then the filter is applied -/
+theorem eval_filter_step (P : Prims) (env : Env) (e : Expr) (name : Bytes) (args : List Expr)
+    (h : P.hasFilter name = true) :
+    eval P env (.filter e name args) =
+      (eval P env e).bind fun recv => (evalList P env args).bind fun as =>
+        P.applyFilter name recv.unwrap (as.map GoVal.unwrap) := by
+  rw [eval]; simp [h]
+
+/-- an unknown filter is an error, whatever the receiver and the arguments are (they are not
+    even evaluated) -/
+theorem unknown_filter_err (P : Prims) (env : Env) (e : Expr) (name : Bytes) (args : List Expr)
+    (h : P.hasFilter name = false) :
+    eval P env (.filter e name args) = .err (.undefinedFilter name) := by
+  rw [eval]; simp [h]
+
+/-- a pipeline `x | f₁: a₁ | … | fₙ: aₙ` -/
+def pipeline (x : Expr) : List (Bytes × List Expr) → Expr
+  | [] => x
+  | (f, as) :: rest => pipeline (.filter x f as) rest
+
+/-- one step of the fold -/
+def pipeStep (P : Prims) (env : Env) (acc : Res Cause GoVal) (fa : Bytes × List Expr) : Res Cause GoVal :=
+  if !P.hasFilter fa.1 then .err (.undefinedFilter fa.1) else
+  acc.bind fun recv => (evalList P env fa.2).bind fun as => P.applyFilter fa.1 recv.unwrap (as.map GoVal.unwrap)
+
+/-- **C08 (pipelines).** A pipeline applies its filters left to right, each to the result of the
+    previous one, with argument expressions evaluated in the current bindings — provided every
+    filter exists (an unknown filter anywhere makes the whole pipeline fail, see
+    `unknown_filter_err`). -/
+theorem pipeline_fold (P : Prims) (env : Env) (x : Expr) (fs : List (Bytes × List Expr))
+    (h : ∀ fa ∈ fs, P.hasFilter fa.1 = true) :
+    eval P env (pipeline x fs) = fs.foldl (pipeStep P env) (eval P env x) := by
+  induction fs generalizing x with
+  | nil => rfl
+  | cons fa rest ih =>
+    obtain ⟨f, as⟩ := fa
+    simp only [pipeline, List.foldl_cons]
+    rw [ih _ (fun y hy => h y (by simp [hy]))]
+    congr 1
+
+/-! Non-vacuity -/
+example : indexValue (.slice .any [.int .int 7, .int .int 8, .int .int 9]) (.int .int (-1)) = .val (.int .int 9) := by
+  simp [indexValue, indexValue.indexList, unwrap]
